@@ -1383,6 +1383,47 @@ class Normaliser:
                 n.test = n.test.operand
                 n.body, n.orelse = n.orelse, n.body
 
+    # ---- one-use temporaries feeding the very next statement -----------------------------------------------------------------
+    def inline_single_use_temps(self, node):
+        """t = CALL(..); S(t)   ->   S(CALL(..))     when t is a local assigned exactly once, read exactly once, in the statement that
+        follows its definition (not inside a loop header, lambda, comprehension or the test of a compound statement)"""
+        stores, loads = {}, {}
+        for n in ast.walk(node):
+            if isinstance(n, ast.Name):
+                d = stores if isinstance(n.ctx, (ast.Store, ast.Del)) else loads
+                d[n.id] = d.get(n.id, 0) + 1
+        params = {a.arg for a in node.args.posonlyargs + node.args.args + node.args.kwonlyargs}
+
+        def process(body):
+            for st in body:
+                for f in ('body', 'orelse', 'finalbody'):
+                    sub = getattr(st, f, None)
+                    if isinstance(sub, list) and sub and isinstance(sub[0], ast.stmt):
+                        process(sub)
+            i = 0
+            while i + 1 < len(body):
+                a, nxt = body[i], body[i + 1]
+                if isinstance(a, ast.Assign) and len(a.targets) == 1 and isinstance(a.targets[0], ast.Name) and isinstance(a.value, ast.Call) \
+                        and isinstance(nxt, (ast.Assign, ast.Expr, ast.Return, ast.AugAssign)):
+                    t = a.targets[0].id
+                    if stores.get(t) == 1 and loads.get(t) == 1 and t not in params:
+                        uses = [n for n in ast.walk(nxt) if isinstance(n, ast.Name) and n.id == t and isinstance(n.ctx, ast.Load)]
+                        guarded = any(isinstance(n, (ast.Lambda, ast.ListComp, ast.SetComp, ast.DictComp, ast.GeneratorExp, ast.IfExp, ast.BoolOp))
+                                      and any(u in list(ast.walk(n)) for u in uses) for n in ast.walk(nxt))
+                        # only the exact inverse of hoisting the first argument of the statement's outermost call
+                        outer = nxt.value if isinstance(nxt, (ast.Assign, ast.Expr, ast.Return, ast.AugAssign)) else None
+                        first_arg = isinstance(outer, ast.Call) and outer.args and uses and outer.args[0] is uses[0]
+                        if len(uses) == 1 and not guarded and first_arg:
+                            val = a.value
+
+                            class R(ast.NodeTransformer):
+                                def visit_Name(self, n):
+                                    return ast.copy_location(val, n) if n.id == t and isinstance(n.ctx, ast.Load) else n
+                            body[i:i + 2] = [R().visit(nxt)]
+                            continue
+                i += 1
+        process(node.body)
+
     def run(self):
         node = clone(self.fi.node)
         self.memo_issues = []
@@ -1394,6 +1435,7 @@ class Normaliser:
         self.unroll_table_dispatch(node)
         self.fold_return_temps(node)
         self.positive_tests(node)
+        self.inline_single_use_temps(node)
         self.split_paths(node)
         ast.fix_missing_locations(node)
         for n in ast.walk(node):
